@@ -208,11 +208,17 @@ type remoteDelivery struct {
 	connections map[string]*mxConn
 
 	policies []module.DeliveryMXAuthPolicy
+
+	// Set if the message requested security policies to be ignored
+	// (TLS-Required: No). Connections opened for it were not checked against
+	// them and must not be reused for other messages.
+	policiesOverridden bool
 }
 
 func (rt *Target) Start(ctx context.Context, msgMeta *module.MsgMetadata, mailFrom string) (module.Delivery, error) {
 	policies := make([]module.DeliveryMXAuthPolicy, 0, len(rt.policies))
-	if !(msgMeta.TLSRequireOverride && rt.allowSecOverride) {
+	policiesOverridden := msgMeta.TLSRequireOverride && rt.allowSecOverride
+	if !policiesOverridden {
 		for _, p := range rt.policies {
 			policies = append(policies, p.Start(msgMeta))
 		}
@@ -267,6 +273,8 @@ func (rt *Target) Start(ctx context.Context, msgMeta *module.MsgMetadata, mailFr
 		Log:         target.DeliveryLogger(rt.Log, msgMeta),
 		connections: map[string]*mxConn{},
 		policies:    policies,
+
+		policiesOverridden: policiesOverridden,
 	}, nil
 }
 
@@ -446,7 +454,7 @@ func (rd *remoteDelivery) Close() error {
 		rd.rt.limits.ReleaseDest(conn.domain)
 		conn.transactions++
 
-		if !conn.Usable() {
+		if !conn.Usable() || rd.policiesOverridden {
 			rd.Log.Debugf("disconnected %v from %s (errored=%v,transactions=%v,disconnected before=%v)",
 				conn.LocalAddr(), conn.ServerName(), conn.errored, conn.transactions, conn.C.Client() == nil)
 			conn.Close()
